@@ -259,6 +259,51 @@ mod proofs {
 """
 
 
+OAE_HARNESS = r'''
+// C13: the builder -> flags direction of --override-abi: the as_args closure of the abi_overrides option (options/mod.rs), real text.
+// Listed rewrites: "lit".to_owned() -> Tok::from("lit"); format!("{item}={abi}") -> format!("{}={}", item, abi) (macro hygiene).
+#![allow(warnings)]
+/*ABI*/
+pub const CAP: usize = 8;
+#[derive(Clone, Copy, PartialEq, Debug)] pub enum Tok { None, Flag, Pair(u8, Abi), Lit }
+impl From<&'static str> for Tok { fn from(s: &'static str) -> Tok { if s.len() == 14 { Tok::Flag } else { Tok::Lit } } }     // "--override-abi"
+macro_rules! format { ("{}={}", $i:expr, $a:expr) => { Tok::Pair(*$i, *$a) } }
+pub struct Vec<T> { pub a: [T; CAP], pub n: usize }
+impl Vec<Tok> { pub fn push(&mut self, t: Tok) { assert!(self.n < CAP); self.a[self.n] = t; self.n += 1; } }
+pub struct List<T, const K: usize> { pub a: [T; K], pub n: usize }
+pub struct LIter<'a, T, const K: usize> { l: &'a List<T, K>, i: usize }
+impl<'a, T, const K: usize> Iterator for LIter<'a, T, K> { type Item = &'a T; fn next(&mut self) -> Option<&'a T> { if self.i >= K { return None; } let k = self.i; self.i += 1; if k < self.l.n { Some(&self.l.a[k]) } else { None } } }
+impl<'a, T, const K: usize> IntoIterator for &'a List<T, K> { type Item = &'a T; type IntoIter = LIter<'a, T, K>; fn into_iter(self) -> LIter<'a, T, K> { LIter { l: self, i: 0 } } }
+pub struct RegexSet { pub items: List<u8, 2> } impl RegexSet { pub fn get_items(&self) -> &List<u8, 2> { &self.items } }
+/// HashMap<Abi, RegexSet> iterates as (&Abi, &RegexSet)
+pub struct Overrides { pub a: [(Abi, RegexSet); 2], pub n: usize }
+pub struct OIter<'a> { o: &'a Overrides, i: usize }
+impl<'a> Iterator for OIter<'a> { type Item = (&'a Abi, &'a RegexSet); fn next(&mut self) -> Option<Self::Item> { if self.i >= 2 { return None; } let k = self.i; self.i += 1; if k < self.o.n { Some((&self.o.a[k].0, &self.o.a[k].1)) } else { None } } }
+impl<'a> IntoIterator for &'a Overrides { type Item = (&'a Abi, &'a RegexSet); type IntoIter = OIter<'a>; fn into_iter(self) -> OIter<'a> { OIter { o: self, i: 0 } } }
+pub fn as_args(overrides: &Overrides, args: &mut Vec<Tok>) { /*AS_ARGS*/ }
+#[cfg(kani)]
+mod proofs {
+    use super::*;
+    fn any_abi() -> Abi { let abis = [/*ALL_ABIS*/]; let i: usize = kani::any(); kani::assume(i < abis.len()); abis[i] }
+    #[kani::proof] #[kani::unwind(10)]
+    fn every_override_is_written_whatever_its_abi() {
+        let set = |_: u8| { let n: usize = kani::any(); kani::assume(n <= 2); RegexSet { items: List { a: [kani::any(), kani::any()], n } } };
+        let n: usize = kani::any(); kani::assume(n <= 2);
+        let (a0, a1) = (any_abi(), any_abi()); kani::assume(a0 != a1);          // a map: one entry per ABI
+        let ov = Overrides { a: [(a0, set(0)), (a1, set(1))], n };
+        let mut args = Vec { a: [Tok::None; CAP], n: 0 };
+        as_args(&ov, &mut args);
+        // expected: for every entry, for every pattern: the flag, then pattern=abi
+        let mut k = 0; let mut e = 0;
+        while e < 2 { if e < ov.n { let mut j = 0; while j < 2 { if j < ov.a[e].1.items.n {
+            assert!(k + 1 < args.n && args.a[k] == Tok::Flag && args.a[k + 1] == Tok::Pair(ov.a[e].1.items.a[j], ov.a[e].0), "an --override-abi entry of the builder is not written to the flag list (or is written for another ABI / pattern)");
+            k += 2; } j += 1; } } e += 1; }
+        assert!(args.n == k, "extra arguments written");
+        kani::cover!(k == 8, "four overrides written");
+    }
+}
+'''
+
 def flag_tables():
     """(emitted, defined): long flags written by the as_args side of options!, long flags the clap struct defines."""
     om = rd('options/mod.rs'); cli = rd('options/cli.rs')
@@ -422,6 +467,31 @@ def kernels(tier, seed):
         k.assumptions = ['as_args prints format!("{item}={abi}") (options/mod.rs abi_overrides); the harness builds that text byte by byte from Abi::to_string()']
         k.bounds = ['regex of 1-3 bytes over [a-z . * = |]; all 10 ABIs (concrete per iteration)']
         return k
+    def oae():
+        om = rd('options/mod.rs'); fun = rd('ir/function.rs')
+        m = re.search(r'^    abi_overrides: [^\n]*\{', om, flags=re.M)
+        if not m:
+            raise SliceError('options! entry abi_overrides not found')
+        entry = om[m.start():match_brace(om, m.end() - 1)]
+        m2 = re.search(r'as_args: \|overrides, args\| \{', entry)
+        if not m2:
+            raise SliceError('abi_overrides as_args closure not found')
+        body = entry[m2.end():match_brace(entry, m2.end() - 1) - 1]
+        bt = re.sub(r'("(?:[^"\\\\]|\\\\.)*")\.to_owned\(\)', r'Tok::from(\1)', body)
+        bt, k = re.subn(r'format!\("\{item\}=\{abi\}"\)', 'format!("{}={}", item, abi)', bt)
+        if k != 1:
+            raise SliceError('abi_overrides as_args: format!("{item}={abi}") not found once')
+        e = extract(fun, r'^pub enum Abi \{', what='enum Abi')
+        variants = re.findall(r'^\s*([A-Z]\w*),\s*$', e, flags=re.M)
+        if len(variants) < 8:
+            raise SliceError('enum Abi: variants not recognised')
+        kk = Kernel(name='override_abi_emission')
+        kk.files = {'src/lib.rs': OAE_HARNESS.replace('/*ABI*/', e).replace('/*AS_ARGS*/', bt).replace('/*ALL_ABIS*/', ', '.join('Abi::' + v for v in variants))}
+        kk.harnesses = [H('every_override_is_written_whatever_its_abi', desc='as_args closure of abi_overrides: one `--override-abi PATTERN=ABI` pair per pattern of every entry, for every ABI value (%d), nothing else' % len(variants), sample={'entries': '<= 2', 'patterns_per_entry': '<= 2', 'abis': len(variants)})]
+        kk.encoded = [enc('options/mod.rs', 'options! abi_overrides: as_args closure', body), enc('ir/function.rs', 'enum Abi', e)]
+        kk.stubs = ['HashMap<Abi, RegexSet> / RegexSet::get_items: fixed-capacity lists', 'rewrites: "lit".to_owned() -> Tok::from("lit"); format!("{item}={abi}") -> positional (macro hygiene)']
+        kk.bounds = ['<= 2 entries x <= 2 patterns']
+        return kk
     def names():
         emitted, defined, body, sb = flag_tables()
         asserts = '\n        '.join('assert!(defined(0x%016x), "Builder::command_line_flags can write %s, which the command line does not define");' % (fnv(f), f) for f in emitted)
@@ -446,4 +516,4 @@ mod proofs {
         k.assumptions = ['no two distinct flag names collide under FNV-1a 64']
         k.bounds = ['finite: %d emitted x %d defined' % (len(emitted), len(defined))]
         return k
-    return [kernel_or_error('flag_names', names), kernel_or_error('override_abi', oabi), kernel_or_error('generate_flag', gen), kernel_or_error('header_order', hdr), kernel_or_error('field_attr', fattr)]
+    return [kernel_or_error('flag_names', names), kernel_or_error('override_abi', oabi), kernel_or_error('override_abi_emission', oae), kernel_or_error('generate_flag', gen), kernel_or_error('header_order', hdr), kernel_or_error('field_attr', fattr)]
